@@ -443,6 +443,29 @@ func TestC13(t *testing.T) {
 				}
 			}
 		}
+		// a literal run longer than the 2^24 that the LZ length fields hold, at the END of the block (after the last
+		// match) and in its middle: compressible head (and tail), more than 16 MiB of random bytes
+		for i, tr := range []string{"LZ", "LZX", "LZP"} {
+			for k, rc := range []gen.Recipe{
+				{Kind: gen.KMixed, Len: 18000000, Seed: 3, P1: 58, P2: gen.KZeros, Kind2: gen.KRandom},
+				{Kind: gen.KMixed, Len: 18000000, Seed: 4, P1: 940, P2: gen.KRandom, Kind2: gen.KZeros}} {
+				idx++
+				if !r.Mine(idx) || r.Failed() || (k == 1 && !r.Thorough() && i > 0) {
+					continue
+				}
+				c := C13Case{Transform: tr, Direct: idx%2 == 0, Entropy: "NONE", DataType: -1, Jobs: 1, Data: rc}
+				o := c13Eval(r, c)
+				r.Label("directed:literal-run-above-2^24")
+				if o.msg != "" {
+					if r.Survey() {
+						r.Violation(t, "transform", c, "%s", o.msg)
+						continue
+					}
+					r.RecordFailure("transform", c, "", o.msg)
+					t.Fatalf("long literal run family: %s on %s", o.msg, jsonOf(c))
+				}
+			}
+		}
 		r.SetExhaustive("ROLZ/ROLZX block lengths around the 16 MiB internal chunk", true)
 	}
 	if r.Thorough() {
